@@ -194,6 +194,13 @@ def f_is_nan(m, st, fr, callee, args):
 
 def _minmax(a, b, is_max):
     # IEEE maxNum/minNum: a NaN operand is ignored
+    for (p, q) in ((a, b), (b, a)):
+        if p.inf:
+            if (p.inf > 0) == is_max:
+                return p                      # max(+inf, x) = +inf, min(-inf, x) = -inf
+            if q.inf or q.bad is False:
+                return q                      # min(+inf, x) = x for a non-NaN x
+            raise Unsupported("min/max of an infinite constant and a possibly-NaN value")
     if not (is_sym(a.r) or is_sym(b.r) or is_sym(a.bad) or is_sym(b.bad)):
         if a.bad:
             return b
@@ -326,7 +333,7 @@ def fo_sort(m, st, fr, callee, args):
     return UNIT
 
 
-@M.add(r"<\[f64\] as IndexMut<core::ops::RangeTo<usize>>>::index_mut|<\[f64; \d+\] as IndexMut<core::ops::RangeTo<usize>>>::index_mut|core::array::<impl IndexMut<core::ops::RangeTo<usize>> for \[f64; \d+\]>::index_mut")
+@M.add(r"<\[f64(; \d+)?\] as IndexMut<(core::ops::)?RangeTo<usize>>>::index_mut|core::array::<impl IndexMut<(core::ops::)?RangeTo<usize>> for \[f64; \d+\]>::index_mut")
 def slice_index_mut_to(m, st, fr, callee, args):
     ref, rng = args
     hi = rng.fields[0]
@@ -350,3 +357,30 @@ def panics(m, st, fr, callee, args):
 @M.add(r"Arguments::<'_>::from_str|Arguments::<'_>::new_const::<\d+>|core::fmt::Arguments::<'_>::new_const::<\d+>")
 def fmt_args(m, st, fr, callee, args):
     return Agg([], "adt", "Arguments")
+
+
+class ListIter:
+    """a concrete-length iterator over given items (items may be symbolic values or references to cells)"""
+
+    def __init__(self, items):
+        self.items = list(items)
+        self.pos = 0
+
+
+@M.add(r"<T as IntoIterator>::into_iter")
+def generic_into_iter(m, st, fr, callee, args):
+    if isinstance(args[0], ListIter):
+        return args[0]
+    raise Unsupported("into_iter of %r" % (args[0],))
+
+
+@M.add(r"<<T as IntoIterator>::IntoIter as Iterator>::next")
+def generic_next(m, st, fr, callee, args):
+    it = deref(m, args[0])
+    if not isinstance(it, ListIter):
+        raise Unsupported("next of %r" % (it,))
+    if it.pos >= len(it.items):
+        return Enum("None", [], "Option")
+    v = it.items[it.pos]
+    it.pos += 1
+    return Enum("Some", [v], "Option")
